@@ -80,6 +80,19 @@ ok = ok_validate(U, w)
 return ok, "accept"
 """, ("accept",), [WPRE])
 
+add("union.pinned", "x: int, b: bool, w: " + WILD, """
+A = schema.int(x)
+B = schema.bool(b)
+C = schema.bytes(b"on")
+D = schema.str("on")
+accs = [ok_validate(s, w) for s in (A, B, C, D)]
+want = accs[0] or accs[1] or accs[2] or accs[3]
+U = A | B | C | D
+V = schema.alias("U", schema.any(A, schema.any(B, C), D))
+ok = ok_validate(U, w) == want and ok_validate(V, w) == want and (U == w) == want
+return ok, ("accept" if want else "reject")
+""", ("accept", "reject"), [WPRE, "-1000 <= x <= 1000"], timeout=120)
+
 add("any.iter", "p: int, q: int", """
 A = schema.int.min(p)
 D = schema.int.max(q)
